@@ -116,6 +116,14 @@ package rules
 // the early return; byte-wise scan of the topic; frontier / result map may be fields of a per-call state struct
 // (places instead of variables); allSubscribes may build the QoS slice by looking the collected filters up.
 //
+// Robustness pass, third iteration (driver out/mut8.py = mutants on top of r10/r11/r12): a method of an unexported
+// interface with a single implementation resolves to that implementation (topicSplitter -> topicLevelManager.get);
+// the level cache type is found wherever it is referenced from; a wrapper between the lookup and the splitter
+// (parseTopic) belongs to the cache family; a read-only local alias of a trie map (clients := node.clients) is a
+// spelling of the field; collectors may range over keys and look the value up; a change of SessionInfo.Topics
+// handed as a closure to a helper (updateTopicsAndStore(func(){..})) is decided through the helper. New R-C14-3
+// obligation "client removed only from the node of the whole filter" (names the slip of seeded C14/g).
+//
 // GENUINE DEFECTS found on the tree of the first pass (since fixed in /repo: 8fc741a, 90acb3c; demo out/zz_triage_test.go):
 //   R-C14-6 |(TopicManager).subscribe|all-or-nothing            — out/fix-1.diff
 //   R-C14-6 |(TopicManager).unsubscribe|every filter processed  — out/fix-2.diff
@@ -156,7 +164,7 @@ type c14env struct {
 func c14(c *core.Ctx) string {
 	c.Rule("R-C14-1", "matcher transition table: in the level loop of findSubscribers, per child edge, as a function of (edge=='#', edge=='+', edge==topic level): '#' => collect that child's clients (descending in addition is harmless: validated filters end at '#'); '+' or equal => descend only; otherwise neither; the frontier starts at the root, is replaced by the fresh next frontier after every level; after the last level every frontier node's clients and the clients of its '#' child are collected; a return inside the level loop happens only with an empty frontier; success returns hand back the result map; levels are used in no other way")
 	c.Rule("R-C14-2", "validation gate: insert/remove/findSubscribers take their levels from the level source (getLevels -> topicLevelManager.get) and index child maps only by elements of that slice or constants; insert reports the source's error (unless every call site validated the batch first); the level cache is filled only with splits splitTopic declared valid, under the key that was split, and get returns a nil error only for a cache hit or a valid split")
-	c.Rule("R-C14-3", "pruning guard: delete(parent.nodes, level) is reachable only when the child stored under exactly that key has len(clients)==0 and len(nodes)==0; remove deletes the caller's client id from the clients map and nothing else")
+	c.Rule("R-C14-3", "pruning guard: delete(parent.nodes, level) is reachable only when the child stored under exactly that key has len(clients)==0 and len(nodes)==0; remove deletes the caller's client id from the clients map and nothing else, and only from the node reached by the whole filter (not after the walk found a level missing)")
 	c.Rule("R-C14-4", "lock discipline: every store into topicNode.clients/nodes is executed with the manager's write lock held, every other access (field selection, collector call) with the read or write lock held — taken in the accessing function or held at all of its call sites (helpers, depth <= 3); locks are released at every exit; the maps do not escape through aliases; node literals create fresh maps; TopicManager.root is never reassigned")
 	c.Rule("R-C14-5", "QoS provenance: the only stores into the result map copy (client, qos) pairs ranged from some node's clients map; insert stores the caller's qos under the caller's client id on every successful path (it may be skipped only when the recorded qos is known to equal the requested one); subscribe pairs filter i with qoss[i]; Session.allSubscribes fills its two result slices in one loop body from the same SessionInfo.Topics entry and touches neither on its own afterwards")
 	c.Rule("R-C14-6", "batch consistency between trie and session: the SUBSCRIBE handler records/acknowledges a batch only if TopicManager.subscribe succeeded; subscribe returns a non-nil error whenever a filter of the batch was found malformed, and is all-or-nothing (no error return after an insert succeeded unless the whole batch was validated first); the UNSUBSCRIBE/disconnect/session-discard paths forget the whole batch whatever unsubscribe returns, so unsubscribe must process every filter of the batch (no exit before the removal loop is exhausted) — if the callers are changed to gate on the error, the contract checked becomes all-or-nothing instead")
@@ -183,6 +191,7 @@ func c14(c *core.Ctx) string {
 	c14Batch(e) // before the gate: tells whether insert's error path is reachable
 	c14Gate(e)
 	c14Prune(e)
+	c14RemoveWalk(e)
 	c14Mutators(e)
 	c14QoS(e)
 	c14Split(e)
@@ -372,7 +381,7 @@ func (e *c14env) findCollectors() {
 			return -2
 		}
 		for _, rs := range c14ranges(fd.Body) {
-			x, ok := c14fieldRecv(f, rs.X, e.clientsF)
+			x, ok := c14fieldOrAlias(f, rs.X, e.clientsF)
 			if !ok {
 				continue
 			}
@@ -458,7 +467,7 @@ func (e *c14env) collects(f *flow.Func, root ast.Node) []c14collect {
 		out = append(out, c14collect{at: call, call: call, recv: node, dst: c14place(f, call.Args[di])})
 	}
 	for _, rs := range c14ranges(root) {
-		x, ok := c14fieldRecv(f, rs.X, e.clientsF)
+		x, ok := c14fieldOrAlias(f, rs.X, e.clientsF)
 		if !ok {
 			continue
 		}
@@ -1056,9 +1065,14 @@ func c14Mutators(e *c14env) {
 						escape = "passed to " + f.Render(pt.Fun)
 					}
 				case *ast.AssignStmt:
-					for _, r := range pt.Rhs {
+					for i, r := range pt.Rhs {
 						if ast.Unparen(r) == ast.Expr(t) {
 							escape = "aliased by an assignment"
+							if len(pt.Lhs) == len(pt.Rhs) {
+								if _, ro := c14readOnlyAlias(f, pt.Lhs[i], s.Obj().(*types.Var)); ro {
+									escape = "" // a read-only local spelling of the field
+								}
+							}
 						}
 					}
 				default:
@@ -1147,16 +1161,24 @@ func c14QoS(e *c14env) {
 				var rs *ast.RangeStmt
 				for p := pm[as]; p != nil; p = pm[p] {
 					if r, ok := p.(*ast.RangeStmt); ok {
-						if x, ok := c14fieldRecv(f, r.X, e.clientsF); ok && c14obj(f, x) == recv {
+						if x, ok := c14fieldOrAlias(f, r.X, e.clientsF); ok && c14obj(f, x) == recv {
 							rs = r
 							break
 						}
 					}
 				}
 				okStore := false
-				if rs != nil && rs.Key != nil && rs.Value != nil && len(as.Lhs) == len(as.Rhs) && as.Tok == token.ASSIGN {
-					k, v := c14obj(f, rs.Key), c14obj(f, rs.Value)
-					okStore = k != nil && v != nil && c14obj(f, ix.Index) == k && c14obj(f, as.Rhs[i]) == v
+				if rs != nil && rs.Key != nil && len(as.Lhs) == len(as.Rhs) && as.Tok == token.ASSIGN {
+					k := c14obj(f, rs.Key)
+					keyOK := k != nil && c14obj(f, ix.Index) == k
+					if rs.Value != nil {
+						v := c14obj(f, rs.Value)
+						okStore = keyOK && v != nil && c14obj(f, as.Rhs[i]) == v
+					}
+					// key-only range: the value is looked up in the ranged map under the same key
+					if lx, isIx := ast.Unparen(as.Rhs[i]).(*ast.IndexExpr); isIx && keyOK && !okStore {
+						okStore = f.Render(lx.X) == f.Render(rs.X) && c14obj(f, lx.Index) == k
+					}
 				}
 				if okStore {
 					good++
